@@ -607,6 +607,100 @@ def shard_form(sh):
     return res
 
 
+# --------------------------------------------------------------- (c2) form_extreme with SRS data; inputs must not be modified
+def _event_with_srs(DR, name, case_ids):
+    results = DR.prepare_results("mission", name)
+    n = len(case_ids)
+    for pos, ci in enumerate(case_ids):
+        R = np.nan_to_num(resp_of("time", ci), nan=0.25) * (1.0 + 0.3 * pos)
+        sol = {(1, 1, 1, 1): SimpleNamespace(d=R.copy(), t=T.copy(), h=0.5)}
+        results.time_data_recovery(sol, None, "%s-c%d" % (name, pos), DR, n, pos)
+    return results
+
+
+def _snapshot(res_cat):
+    out = {k: np.array(getattr(res_cat, k), copy=True) for k in ("ext", "ext_x", "mx", "mn", "mx_x", "mn_x")}
+    out["maxcase"] = list(res_cat.maxcase)
+    out["mincase"] = list(res_cat.mincase)
+    for q in QS:
+        out["srs.ext%s" % q] = np.array(res_cat.srs.ext[q], copy=True)
+        out["srs.srs%s" % q] = np.array(res_cat.srs.srs[q], copy=True)
+    return out
+
+
+def _snap_diff(a, b):
+    for k in a:
+        if isinstance(a[k], list):
+            if a[k] != b[k]:
+                return k
+        elif not eqnan(a[k], b[k]):
+            return k
+    return None
+
+
+def check_form_srs(order, nested, res):
+    from pyyeti import cla
+
+    msgs = []
+    DR = make_dr()
+    evdefs = {"EA": (0, 1), "EB": (4, 1, 3), "EC": (5, 0)}
+    evs = {k: _event_with_srs(DR, k, v) for k, v in evdefs.items()}
+    results = cla.DR_Results()
+    if nested:
+        g1 = cla.DR_Results()
+        g1.merge([evs[order[0]], evs[order[1]]])
+        results["G1"] = g1
+        g2 = cla.DR_Results()
+        g2.merge([evs[order[2]]])
+        results["G2"] = g2
+    else:
+        results.merge([evs[k] for k in order])
+    before = {k: _snapshot(evs[k]["cat"]) for k in evs}
+    for rep in range(2):
+        try:
+            results.form_extreme("Env")
+        except Exception as e:  # noqa
+            return ["form_extreme with SRS data raised %r" % (e,)]
+        ex = results["extreme"]["cat"]
+        for q in QS:
+            env = np.fmax.reduce([before[k]["srs.ext%s" % q] for k in order])
+            if not eqnan(ex.srs.ext[q], env):
+                msgs.append("form_extreme (pass %d): SRS envelope (Q=%s) is not the maximum over the events" % (rep + 1, q))
+            if nested:
+                g1env = np.fmax(before[order[0]]["srs.ext%s" % q], before[order[1]]["srs.ext%s" % q])
+                if not eqnan(results["G1"]["extreme"]["cat"].srs.ext[q], g1env):
+                    msgs.append("form_extreme (pass %d): SRS envelope of the first group is not the envelope of its parts" % (rep + 1))
+                if not eqnan(ex.srs.srs[q][0], g1env) or not eqnan(ex.srs.srs[q][1], before[order[2]]["srs.ext%s" % q]):
+                    msgs.append("form_extreme (pass %d): per-event SRS stored in the top-level extreme is wrong" % (rep + 1))
+            else:
+                for j, k in enumerate(order):
+                    if not eqnan(ex.srs.srs[q][j], before[k]["srs.ext%s" % q]):
+                        msgs.append("form_extreme (pass %d): per-event SRS #%d stored in the extreme is not that event's envelope" % (rep + 1, j))
+        want = np.column_stack((np.fmax.reduce([before[k]["ext"][:, 0] for k in order]), np.fmin.reduce([before[k]["ext"][:, 1] for k in order])))
+        if not eqnan(ex.ext, want):
+            msgs.append("form_extreme (pass %d): ext is not the envelope of the events" % (rep + 1))
+        for k in evs:
+            d = _snap_diff(before[k], _snapshot(evs[k]["cat"]))
+            if d:
+                msgs.append("form_extreme (pass %d) modified the data of input event %s (%s)" % (rep + 1, k, d))
+    return msgs
+
+
+def shard_formsrs(sh):
+    res = Result()
+    for order in itertools.permutations(("EA", "EB", "EC")):
+        for nested in (False, True):
+            msgs = check_form_srs(order, nested, res)
+            res.ev("formsrs/%s/%s" % ("".join(o[1] for o in order), "nested" if nested else "flat"))
+            res.transitions += 3
+            res.traces += 1
+            for m in msgs:
+                res.viol(dict(part="formsrs", order=list(order), nested=nested), m, kind="formsrs-" + m.split(":")[-1][:30])
+    res.states += 12
+    res.sample(dict(part="formsrs", order=list(order), nested=nested))
+    return res
+
+
 # --------------------------------------------------------------- (d) apply_uf
 UFS = [(1, 1, 1, 1), (1.2, 1, 1, 1), (1, 1.2, 1, 1), (1, 1, 1.2, 1), (1, 1, 1, 1.2), (0.5, 1.2, 1.5, 2.0)]
 
@@ -766,12 +860,13 @@ def shards(tier, seed):
     for nev in (2, 3):
         out.append(dict(part="form", nev=nev))
     out.append(dict(part="applyuf", L=2 if q else 3))
+    out.append(dict(part="formsrs"))
     r = seed % len(out)
     return out[r:] + out[:r]
 
 
 def run_shard(sh):
-    return {"extrema": shard_extrema, "recovery": shard_recovery, "form": shard_form, "applyuf": shard_applyuf}[sh["part"]](sh)
+    return {"extrema": shard_extrema, "recovery": shard_recovery, "form": shard_form, "applyuf": shard_applyuf, "formsrs": shard_formsrs}[sh["part"]](sh)
 
 
 def replay(case):
@@ -786,4 +881,6 @@ def replay(case):
         return check_form(tuple(case["ids"]), case["with_x"], case["doappend"], (case["brk"][0], case["brk"][1]), case["order"])[0]
     if p == "applyuf":
         return check_applyuf(case["form"], case["layout"], tuple(case["ufseq"]))[0]
+    if p == "formsrs":
+        return check_form_srs(tuple(case["order"]), case["nested"], Result())
     return ["unknown case"]
